@@ -1,4 +1,4 @@
-(* Trace predicates of the hub properties C01 C03 C04 C05 C06 C07 C08 C09 C19:
+(* Trace predicates of the hub properties C01 C03 C04 C05 C06 C07 C08 C09 C19 and of C14 at room level:
    each is the property itself as a decision procedure over what the harness
    recorded (op, observation, digest of the server tables after the op), written
    from the property text and independent of model/Hub.v's step function. *)
@@ -18,7 +18,7 @@ Definition is_client_d (x : sd) : bool := N.eqb x.(d_kind) 0.
 Definition perm_d (x : sd) (p : N) : bool :=
   if is_virtual_d x then true
   else match x.(d_perms) with None => negb (N.eqb p 6) | Some m => N.testbit m p end.
-Definition empty_digest : digest := mkdigest [] [] [] [] [] [] [] [] [] 0 0 0 0 0 0 0 [].
+Definition empty_digest : digest := mkdigest [] [] [] [] [] [] [] [] [] 0 0 0 0 0 0 0 [] [].
 Definition nlen {A} (l : list A) : N := N.of_nat (length l).
 Definition room_entry (dg : digest) (k : N * N) : option (list N * list N) :=
   match find (fun e => pair_eqb (fst (fst e)) k) dg.(g_rooms) with Some (_, m, i) => Some (m, i) | None => None end.
@@ -310,7 +310,7 @@ Definition step_C08 (pd : digest) (o : op) (ob : obs) (dg : digest) : bool :=
      | OTransient c _ _ _ =>
          match sd_of_conn pd c with
          | Some s => if is_internal_d s || perm_d s 5 then true
-                     else forallb (fun e => match snd e with STransient 1 _ | STransient 2 _ => false | _ => true end) (all_msgs ob)
+                     else forallb (fun e => match snd e with STransient (TSet _ _ _) | STransient (TRemove _ _) => false | _ => true end) (all_msgs ob)
          | None => true end
      | _ => true
      end.
@@ -373,8 +373,9 @@ Record pstate := mkps {
   ps_queue : alist (list (N * N));       (* session -> (kind, tag) of messages addressed to it while disconnected *)
   ps_broken : list N;                    (* connections the server can no longer write to (it still believes them connected) *)
   ps_virt : list (N * (N * N));          (* virtual sessions seen so far and the room each was in (session ids are never reused) *)
+  ps_tdata : alist (option (N * list (N * N)));   (* session -> room and the transient data it can reconstruct from what it received since it joined *)
 }.
-Definition ps_init : pstate := mkps empty_digest [] [] [] [].
+Definition ps_init : pstate := mkps empty_digest [] [] [] [] [].
 (* a session is reachable when it has a connection the server can write to *)
 Definition writable (broken : list N) (x : sd) : bool :=
   match x.(d_conn) with Some c => negb (nmem c broken) | None => false end.
@@ -532,6 +533,174 @@ Definition step_C06 (ps : pstate) (o : op) (ob : obs) (dg : digest) : bool :=
   | _ => true
   end.
 
+
+(* ------------------------------------------------------------------ C14 at the level of rooms and sessions *)
+(* "Each session in a room receives the current transient data when it joins and thereafter set/remove
+   notifications that, applied in order to what it received, always reproduce the room's current data; setting an
+   unchanged value sends nothing."  Judged on what the connections received and on the data of the rooms in the
+   digest.  (Times-to-live are the subject of the store-level check, Run_C14.v; the hub harness sends none.) *)
+Definition tdata_of (dg : digest) (k : N * N) : list (N * N) :=
+  match find (fun e => pair_eqb (fst e) k) dg.(g_transient) with Some e => snd e | None => [] end.
+Definition data_eqb (a b : list (N * N)) : bool := list_eqb pair_eqb (sort_join a) (sort_join b).
+Definition optN_neqb (a b : option N) : bool := negb (optN_eqb a b).
+
+(* the replica of a session: what it was told since its last join, applied in order *)
+Definition apply_trans (v : option (N * list (N * N))) (m : smsg) : option (N * list (N * N)) :=
+  match m with
+  | SRoom 0 => None
+  | SRoom r => match v with
+               | Some (r', _) => if N.eqb r r' then v else Some (r, [])   (* same room: its properties changed *)
+               | None => Some (r, []) end
+  | STransient t =>
+      match v with
+      | Some (r, d) => Some (r, match t with TInit d' => d' | TSet key x _ => aset d key x | TRemove key _ => adel d key end)
+      | None => None end
+  | _ => v
+  end.
+
+Definition update_tviews (pd dg : digest) (ob : obs) (views : alist (option (N * list (N * N)))) : alist (option (N * list (N * N))) :=
+  fold_left (fun acc e =>
+     let '(c, msgs) := e in
+     let sid0 := conn_session pd dg c in
+     snd (fold_left (fun st m =>
+            let '(cur, vs) := st in
+            match m with
+            | SHello sid _ => (Some sid, vs)
+            | _ => match cur with
+                   | Some sid => (cur, aset vs sid (apply_trans (match aget vs sid with Some v => v | None => None end) m))
+                   | None => (cur, vs) end
+            end) msgs (sid0, acc))) ob.(o_recv) views.
+
+(* clause 1 (a): the replica of every session the server can write to is the data of its room; data notifications are
+   written in the step that changes the data (also a backend request: in the step that delivers it), so this holds after
+   every step whatever is still queued on the bus *)
+Definition tdata_ok (broken : list N) (dg : digest) (views : alist (option (N * list (N * N)))) : bool :=
+  forallb (fun x =>
+     if is_virtual_d x || negb (writable broken x) then true
+     else match x.(d_room) with
+          | Some k => match aget views x.(d_sid) with
+                      | Some (Some (r, d)) => N.eqb r (snd k) && data_eqb d (tdata_of dg k)
+                      | _ => false end
+          | None => match aget views x.(d_sid) with Some (Some _) => false | _ => true end
+          end) dg.(g_sessions).
+
+(* clause 2 (b): a transient message is written only to a session that is in the room whose data it describes, at
+   that moment: the initial data to the session that joins, in the step of its join, and it is the room's data; a
+   set / remove notice to a session that is in a room before and after the step, and that room's data changed in
+   this step as the notice says.  Exempt: what a resume writes to the resuming connection (the queue of the time
+   the session was away, judged by the replica clause). *)
+Definition trans_to_members (pd dg : digest) (o : op) (ob : obs) : bool :=
+  forallb (fun e =>
+     let '(c, m) := e in
+     match m with
+     | STransient t =>
+         match o with OHello c' (HResume _) => N.eqb c c' | _ => false end
+         || match conn_session pd dg c with
+            | None => false
+            | Some sid =>
+                match t with
+                | TInit d =>
+                    match o with OJoin c' _ _ _ => N.eqb c c' | _ => false end
+                    && match find_sd dg sid with
+                       | Some y => match y.(d_room) with
+                                   | Some k => data_eqb d (tdata_of dg k) && negb (match d with [] => true | _ => false end)
+                                   | None => false end
+                       | None => false end
+                | TSet key v old =>
+                    match find_sd pd sid, find_sd dg sid with
+                    | Some x, Some y =>
+                        match x.(d_room) with
+                        | Some k => opt_pair_eqb y.(d_room) (Some k)
+                                    && optN_eqb (aget (tdata_of dg k) key) (Some v)
+                                    && optN_eqb (aget (tdata_of pd k) key) old
+                                    && optN_neqb old (Some v)
+                        | None => false end
+                    | _, _ => false end
+                | TRemove key old =>
+                    match find_sd pd sid, find_sd dg sid with
+                    | Some x, Some y =>
+                        match x.(d_room) with
+                        | Some k => opt_pair_eqb y.(d_room) (Some k)
+                                    && optN_eqb (aget (tdata_of dg k) key) None
+                                    && optN_eqb (aget (tdata_of pd k) key) old
+                                    && optN_neqb old None
+                        | None => false end
+                    | _, _ => false end
+                end
+            end
+     | _ => true end) (all_msgs ob).
+
+Definition no_trans_msgs (ob : obs) : bool :=
+  forallb (fun e => match snd e with STransient _ => false | _ => true end) (all_msgs ob).
+Definition tdata_unchanged (pd dg : digest) : bool := mset_eqb tdata_eqb pd.(g_transient) dg.(g_transient).
+(* the request asks for what is already the case: the value the key has / a key that is absent *)
+Definition trans_noop (d : list (N * N)) (del : bool) (key val : N) : bool :=
+  if del || N.eqb val 0 then optN_eqb (aget d key) None else optN_eqb (aget d key) (Some val).
+Definition trans_result (d : list (N * N)) (del : bool) (key val : N) : list (N * N) :=
+  if del || N.eqb val 0 then adel d key else aset d key val.
+Definition transient_allowed (s : sd) : bool := is_internal_d s || perm_d s 5.
+
+(* clauses 3 (c), 4 (d), 5: requests.  quiescent: a backend request is delivered within its own step *)
+Definition step_trans_req (quiescent : bool) (pd : digest) (o : op) (ob : obs) (dg : digest) : N :=
+  match o with
+  | OTransient c kindn key val =>
+      match sd_of_conn pd c with
+      | None => 0                                     (* before hello: C01 *)
+      | Some s =>
+          let refused code :=
+            if list_eqb (fun a b => N.eqb (fst a) (fst b) && smsg_eqb (snd a) (snd b)) (all_msgs ob) [(c, SError code)]
+               && digest_match dg pd then 0 else 4 in
+          match s.(d_room) with
+          | None => refused 17
+          | Some k =>
+              if 2 <=? kindn then refused 18
+              else if negb (transient_allowed s) then refused 14
+              else
+                let del := N.eqb kindn 1 in
+                if trans_noop (tdata_of pd k) del key val
+                then (if no_trans_msgs ob && digest_match dg pd then 0 else 3)
+                else if data_eqb (tdata_of dg k) (trans_result (tdata_of pd k) del key val) then 0 else 5
+          end
+      end
+  | OApi b signas room (ATransient del key val) =>
+      if negb quiescent then 0
+      else if negb (N.eqb b signas) then (if no_trans_msgs ob && tdata_unchanged pd dg then 0 else 4)
+      else
+        match room_entry pd (b, room) with
+        | None => if no_trans_msgs ob && tdata_unchanged pd dg then 0 else 4      (* a room nobody is in: nothing to change *)
+        | Some _ =>
+            if trans_noop (tdata_of pd (b, room)) del key val
+            then (if no_trans_msgs ob && tdata_unchanged pd dg then 0 else 3)
+            else if data_eqb (tdata_of dg (b, room)) (trans_result (tdata_of pd (b, room)) del key val) then 0 else 5
+        end
+  | _ => 0
+  end.
+
+(* clause 6: nothing else changes the data of a room: a room that stays keeps its data, a room that appears (or was
+   emptied and created again in this step: no member in common) starts without *)
+Definition trans_op (quiescent : bool) (o : op) : bool :=
+  match o with
+  | OTransient _ _ _ _ => true
+  | OApi _ _ _ (ATransient _ _ _) => true
+  | ODeliver _ => negb quiescent
+  | _ => false end.
+Definition tdata_kept (pd dg : digest) : bool :=
+  forallb (fun e => let '(k, m, _) := e in
+     match room_entry pd k with
+     | Some (m0, _) => data_eqb (tdata_of dg k) (tdata_of pd k)
+                       || (data_eqb (tdata_of dg k) [] && forallb (fun x => negb (nmem x m0)) m)
+     | None => data_eqb (tdata_of dg k) [] end) dg.(g_rooms)
+  (* and the digest lists data only for rooms that exist *)
+  && forallb (fun e => match room_entry dg (fst e) with Some _ => true | None => data_eqb (snd e) [] end) dg.(g_transient).
+
+Definition step_C14 (quiescent : bool) (broken : list N) (pd : digest) (tviews : alist (option (N * list (N * N))))
+                    (o : op) (ob : obs) (dg : digest) : N :=
+  if negb (tdata_ok broken dg tviews) then 1
+  else if negb (trans_to_members pd dg o ob) then 2
+  else match step_trans_req quiescent pd o ob dg with
+       | 0 => if trans_op quiescent o || tdata_kept pd dg then 0 else 6
+       | n => n end.
+
 (* ------------------------------------------------------------------ participants lists (C19, C04) *)
 (* "A virtual session disappears from the room when it is removed or when its internal client's session ends":
    a participants update for a room does not list a virtual session that was in that room and is gone - it was
@@ -570,7 +739,8 @@ Definition ps_next (ps : pstate) (o : op) (ob : obs) (dg : digest) : pstate :=
   let q2 := match o with
             | OHello c (HResume (IdPriv n)) => match sd_of_conn dg c with Some x => if N.eqb x.(d_sid) n then adel q1 n else q1 | None => q1 end
             | _ => q1 end in
-  mkps dg (update_views pd dg ob ps.(ps_view)) (filter (fun e => live dg (fst e)) q2) br2 (virt_next ps.(ps_virt) dg).
+  mkps dg (update_views pd dg ob ps.(ps_view)) (filter (fun e => live dg (fst e)) q2) br2 (virt_next ps.(ps_virt) dg)
+       (update_tviews pd dg ob ps.(ps_tdata)).
 
 (* clause numbers reported with a failure *)
 Definition check_step (which : N) (cfg : pcfg) (last : bool) (ps : pstate) (o : op) (ob : obs) (dg : digest) : N :=
@@ -592,6 +762,7 @@ Definition check_step (which : N) (cfg : pcfg) (last : bool) (ps : pstate) (o : 
   | 9 => if digest_C09 dg then 0 else 1
   | 19 => if negb (digest_C19 dg) then 1 else if negb (step_C19 pd o ob dg) then 2
           else if cfg.(pc_quiescent) && negb (part_ok ps.(ps_virt) pd dg o ob) then 3 else 0
+  | 14 => step_C14 cfg.(pc_quiescent) ps.(ps_broken) pd (update_tviews pd dg ob ps.(ps_tdata)) o ob dg
   | _ => 0
   end.
 
@@ -624,7 +795,7 @@ Definition hold_ok (md dg : digest) : bool :=
      | None => true end) dg.(g_sessions).
 
 Definition check_step_spec (which : N) (cfg : pcfg) (last : bool) (ps : pstate) (md md' : digest) (o : op) (ob : obs) (dg : digest) : N :=
-  let ps' := mkps md ps.(ps_view) ps.(ps_queue) ps.(ps_broken) ps.(ps_virt) in
+  let ps' := mkps md ps.(ps_view) ps.(ps_queue) ps.(ps_broken) ps.(ps_virt) ps.(ps_tdata) in
   match check_step which cfg last ps' o ob dg with
   | 0 => match which with
          | 4 => if (cfg.(pc_quiescent) || last) && negb (observers_ok_b ps.(ps_broken) md' (update_views md dg ob ps.(ps_view))) then 12 else 0
